@@ -538,6 +538,13 @@ class IRGenerator:
                     quote(item.annotation_type), item.lineno, item.path)
         else:
             if item.annotation_type_ns is not None:
+                if item.annotation_type_ns == namespace.name:
+                    # Same answer as for a data type qualified with the
+                    # name of its own namespace.
+                    raise InvalidSpec(
+                        'Namespace %s is not imported' %
+                        quote(item.annotation_type_ns),
+                        item.lineno, item.path)
                 namespace.add_imported_namespace(
                     self.api.ensure_namespace(item.annotation_type_ns),
                     imported_annotation_type=True)
